@@ -12,6 +12,7 @@ package sstls
 import (
 	"crypto/tls"
 	"crypto/x509"
+	"encoding/pem"
 	"errors"
 	"io/fs"
 	"net"
@@ -27,6 +28,7 @@ import (
 //verif:stub crypto/x509.ParseCertificate stubParseCertificate
 //verif:stub github.com/magisterquis/curlrevshell/lib/sstls.GenerateSelfSignedCertificate stubGenerate
 //verif:stub (time.Time).Format stubTimeFormat
+//verif:stub encoding/pem.Decode stubPemDecode
 
 type writeRec struct {
 	name string
@@ -108,6 +110,14 @@ func stubGenerate(subject string, dnsNames []string, ipAddresses []net.IP, lifes
 	genCert = pemish(2)
 	genKey = pemish(2)
 	return genCert, genKey, tls.Certificate{Certificate: [][]byte{{2}}, Leaf: &x509.Certificate{}}, nil
+}
+// stubPemDecode: encoding/pem's contract: the first PEM block and the rest, or a nil block and
+// the whole input when no PEM data is found.
+func stubPemDecode(data []byte) (*pem.Block, []byte) {
+	if nondetBool() {
+		return nil, data
+	}
+	return &pem.Block{Type: "CERTIFICATE", Bytes: []byte{1}}, nil
 }
 func stubTimeFormat(t time.Time, layout string) string { return "T" }
 
